@@ -614,3 +614,117 @@ func inv_generateImportDecl(imporSpecs []*ast.ImportSpec, specs []ast.Spec, kvcI
 		return vs.TypeIs[*ast.ImportSpec](specs[i]) && vs.As[*ast.ImportSpec](specs[i]) == imporSpecs[i]
 	}))
 }
+
+// ---------------------------------------------------------------------------
+// C04: collectImportsFromType - which packages a type's spelling needs. Recursive over the structure of the type; the
+// contract is one step of the induction: the call visits its type (ghost set gCollected) and every direct component of
+// it, a visited named or alias type of another package has its package referenced, and nothing is ever taken back. By
+// induction over the type (meta-argument) every named type reachable through t has its package referenced.
+// ---------------------------------------------------------------------------
+
+var gCollected = map[types.Type]bool{}
+
+//kvc:ghost collectImportsFromType@reach before "switch typ := t.(type)"
+func ghostCollected(t types.Type) { gCollected[t] = true }
+
+func foreignPackage(o *types.TypeName, pkg string) bool { return o.Pkg() != nil && o.Pkg().Path() != pkg }
+
+// referencedIfForeign: a named / alias type declared in another package has that package in the referenced set
+func referencedIfForeign(t types.Type, pkg string, referencedImports map[string]*Import) bool {
+	return vs.Implies(vs.TypeIs[*types.Named](t) && foreignPackage(vs.As[*types.Named](t).Obj(), pkg),
+		vs.Has(referencedImports, vs.As[*types.Named](t).Obj().Pkg().Path())) &&
+		vs.Implies(vs.TypeIs[*types.Alias](t) && foreignPackage(vs.As[*types.Alias](t).Obj(), pkg),
+			vs.Has(referencedImports, vs.As[*types.Alias](t).Obj().Pkg().Path()))
+}
+
+// componentsCollected: every direct component of t whose spelling appears inside t's spelling has been visited
+func componentsCollected(t types.Type) bool {
+	return vs.Implies(vs.TypeIs[*types.Named](t) && vs.As[*types.Named](t).TypeArgs() != nil,
+		vs.Forall(vs.As[*types.Named](t).TypeArgs().Len(), func(i int) bool { return gCollected[vs.As[*types.Named](t).TypeArgs().At(i)] })) &&
+		vs.Implies(vs.TypeIs[*types.Pointer](t), gCollected[vs.As[*types.Pointer](t).Elem()]) &&
+		vs.Implies(vs.TypeIs[*types.Slice](t), gCollected[vs.As[*types.Slice](t).Elem()]) &&
+		vs.Implies(vs.TypeIs[*types.Array](t), gCollected[vs.As[*types.Array](t).Elem()]) &&
+		vs.Implies(vs.TypeIs[*types.Chan](t), gCollected[vs.As[*types.Chan](t).Elem()]) &&
+		vs.Implies(vs.TypeIs[*types.Map](t), gCollected[vs.As[*types.Map](t).Key()] && gCollected[vs.As[*types.Map](t).Elem()]) &&
+		vs.Implies(vs.TypeIs[*types.Signature](t) && vs.As[*types.Signature](t).Params() != nil,
+			varsCollected(vs.YieldSeq(vs.As[*types.Signature](t).Params().Variables()), len(vs.YieldSeq(vs.As[*types.Signature](t).Params().Variables())))) &&
+		vs.Implies(vs.TypeIs[*types.Signature](t) && vs.As[*types.Signature](t).Results() != nil,
+			varsCollected(vs.YieldSeq(vs.As[*types.Signature](t).Results().Variables()), len(vs.YieldSeq(vs.As[*types.Signature](t).Results().Variables())))) &&
+		vs.Implies(vs.TypeIs[*types.Struct](t),
+			varsCollected(vs.YieldSeq(vs.As[*types.Struct](t).Fields()), len(vs.YieldSeq(vs.As[*types.Struct](t).Fields())))) &&
+		vs.Implies(vs.TypeIs[*types.Interface](t),
+			funcsCollected(vs.YieldSeq(vs.As[*types.Interface](t).Methods()), len(vs.YieldSeq(vs.As[*types.Interface](t).Methods()))))
+}
+
+// varsCollected / funcsCollected: the types of the first n parameters / results / fields / methods have been visited
+func varsCollected(vars []*types.Var, n int) bool {
+	return vs.Forall(n, func(k int) bool { return gCollected[vars[k].Type()] })
+}
+
+func funcsCollected(fns []*types.Func, n int) bool {
+	return vs.Forall(n, func(k int) bool { return gCollected[fns[k].Type()] })
+}
+
+//kvc:contract collectImportsFromType@reach
+func contract_collectImportsFromType_reach(t types.Type, pkg string, imports map[string]*Import, referencedImports map[string]*Import, varPool *VarPool) {
+	vs.Requires(imports != nil && referencedImports != nil && !vs.SameMap(imports, referencedImports) && poolInv(varPool))
+	vs.Ensures("visits_its_type", gCollected[t])
+	vs.Ensures("visits_the_components", componentsCollected(t))
+	vs.Ensures("references_a_foreign_named_type", referencedIfForeign(t, pkg, referencedImports))
+	vs.Ensures("nothing_taken_back", vs.ForallString(func(k string) bool {
+		return vs.Implies(vs.Old(vs.Has(referencedImports, k)), vs.Has(referencedImports, k))
+	}) && vs.ForallValue(func(x types.Type) bool { return vs.Implies(vs.Old(gCollected[x]), gCollected[x]) }))
+	vs.Ensures("pool_inv", poolInv(varPool))
+	vs.Modifies(imports, referencedImports, varPool.vars, gCollected)
+	vs.Allocates()
+	return
+}
+
+// the state every loop of collectImportsFromType keeps: the tables are there, nothing was taken back, t is visited and,
+// if it is a foreign named type, referenced
+func collectStep(t types.Type, pkg string, imports map[string]*Import, referencedImports map[string]*Import, varPool *VarPool) bool {
+	return imports != nil && referencedImports != nil && !vs.SameMap(imports, referencedImports) && poolInv(varPool) &&
+		gCollected[t] && referencedIfForeign(t, pkg, referencedImports)
+}
+
+func nothingTakenBack(referencedImports map[string]*Import) bool {
+	return vs.ForallString(func(k string) bool {
+		return vs.Implies(vs.Old(vs.Has(referencedImports, k)), vs.Has(referencedImports, k))
+	}) && vs.ForallValue(func(x types.Type) bool { return vs.Implies(vs.Old(gCollected[x]), gCollected[x]) })
+}
+
+//kvc:loop collectImportsFromType@reach "for i := 0; i < typeArgs.Len(); i++"
+func inv_collect_typeargs(t types.Type, pkg string, imports map[string]*Import, referencedImports map[string]*Import, varPool *VarPool, typeArgs *types.TypeList, i int) {
+	vs.Invariant("step", collectStep(t, pkg, imports, referencedImports, varPool))
+	vs.Invariant("nothing_taken_back", nothingTakenBack(referencedImports))
+	vs.Invariant("arguments_so_far", 0 <= i && vs.Forall(i, func(j int) bool { return gCollected[typeArgs.At(j)] }))
+}
+
+//kvc:loop collectImportsFromType@reach "for v := range params.Variables()"
+func inv_collect_params(t types.Type, pkg string, imports map[string]*Import, referencedImports map[string]*Import, varPool *VarPool, params *types.Tuple, kvcIdx int) {
+	vs.Invariant("step", collectStep(t, pkg, imports, referencedImports, varPool))
+	vs.Invariant("nothing_taken_back", nothingTakenBack(referencedImports))
+	vs.Invariant("so_far", varsCollected(vs.YieldSeq(params.Variables()), kvcIdx))
+}
+
+//kvc:loop collectImportsFromType@reach "for v := range results.Variables()"
+func inv_collect_results(t types.Type, pkg string, imports map[string]*Import, referencedImports map[string]*Import, varPool *VarPool, typ *types.Signature, results *types.Tuple, kvcIdx int) {
+	vs.Invariant("step", collectStep(t, pkg, imports, referencedImports, varPool))
+	vs.Invariant("nothing_taken_back", nothingTakenBack(referencedImports))
+	vs.Invariant("parameters_done", vs.Implies(typ.Params() != nil, varsCollected(vs.YieldSeq(typ.Params().Variables()), len(vs.YieldSeq(typ.Params().Variables())))))
+	vs.Invariant("so_far", varsCollected(vs.YieldSeq(results.Variables()), kvcIdx))
+}
+
+//kvc:loop collectImportsFromType@reach "for field := range typ.Fields()"
+func inv_collect_fields(t types.Type, pkg string, imports map[string]*Import, referencedImports map[string]*Import, varPool *VarPool, typ *types.Struct, kvcIdx int) {
+	vs.Invariant("step", collectStep(t, pkg, imports, referencedImports, varPool))
+	vs.Invariant("nothing_taken_back", nothingTakenBack(referencedImports))
+	vs.Invariant("so_far", varsCollected(vs.YieldSeq(typ.Fields()), kvcIdx))
+}
+
+//kvc:loop collectImportsFromType@reach "for method := range typ.Methods()"
+func inv_collect_methods(t types.Type, pkg string, imports map[string]*Import, referencedImports map[string]*Import, varPool *VarPool, typ *types.Interface, kvcIdx int) {
+	vs.Invariant("step", collectStep(t, pkg, imports, referencedImports, varPool))
+	vs.Invariant("nothing_taken_back", nothingTakenBack(referencedImports))
+	vs.Invariant("so_far", funcsCollected(vs.YieldSeq(typ.Methods()), kvcIdx))
+}
